@@ -100,6 +100,7 @@ type ManifestOpt struct {
 	ArtifactType string
 	Annotations  map[string]string
 	Docker       bool
+	Platforms    []*ocispec.Platform // Index only: platform of each member descriptor
 }
 
 func (d *DAG) descs(ids []int) []ocispec.Descriptor {
@@ -148,6 +149,9 @@ func (d *DAG) Index(name string, manifests []int, o ManifestOpt) int {
 		Manifests:    d.descs(manifests),
 		ArtifactType: o.ArtifactType,
 		Annotations:  o.Annotations,
+	}
+	for i, p := range o.Platforms {
+		x.Manifests[i].Platform = p
 	}
 	kind, mt := KIndex, ocispec.MediaTypeImageIndex
 	if o.Docker {
@@ -426,6 +430,14 @@ func Curated() []*DAG {
 		m := d.Manifest("M", c, []int{l}, no())
 		d.Manifest("R1", c, []int{s}, ManifestOpt{Subject: m, ArtifactType: "application/vnd.test.a"})
 		d.Manifest("R2", c, []int{s, l}, ManifestOpt{Subject: m, ArtifactType: "application/vnd.test.b"})
+	})
+	mk("platform", func(d *DAG) {
+		c1 := d.Blob("Camd", MTConfig, `{"architecture":"amd64","os":"linux"}`)
+		c2 := d.Blob("Carm", MTConfig, `{"architecture":"arm64","os":"linux"}`)
+		l := d.Blob("L", MTLayer, "l")
+		m1 := d.Manifest("Mamd", c1, []int{l}, no())
+		m2 := d.Manifest("Marm", c2, []int{l}, no())
+		d.Index("I", []int{m1, m2}, ManifestOpt{Subject: -1, Platforms: []*ocispec.Platform{{Architecture: "amd64", OS: "linux"}, {Architecture: "arm64", OS: "linux"}}})
 	})
 	mk("fanout", func(d *DAG) {
 		c := d.Blob("C", MTConfig, "{}")
